@@ -182,6 +182,56 @@ Proof.
   intros U. destruct (U 0%Z) as [t [E L]]. vm_compute in E. injection E as <-. vm_compute in L. apply L. reflexivity.
 Qed.
 
+(* (c), the WHOLE teardown timed (round 5; model Net/Teardown.v `teardown_with`): asking a worker whose process
+   is gone costs the linger of the socket, the worker phase takes its deadline AFTER the asking, and the shm
+   server -- which acknowledges the ShutdownCommand first and unlinks its segments afterwards -- is joined
+   without a timeout.  Whatever the workers are doing, however many of them are dead, whatever the server
+   holds and however long its sweep takes: no worker is alive afterwards, NO SEGMENT IS LEFT, the server is
+   never killed, and everything ends within (linger per dead worker) + grace + sweep.
+   (Hypothesis: the server gets through its sweep; one that does not has not died, it is outside the property.) *)
+Theorem C05_teardown_leaves_no_segment : forall mono0 ws s, wedged s = false ->
+  let '(ws', a, t_ask, (lft, sa, x)) := teardown_t mono0 ws s in
+  no_live_worker ws' = true /\ lft = false /\ Forall join_in_grace a
+  /\ t_ask = (linger * exited_workers ws)%Z
+  /\ (forall t, In (SJoin (Some t)) sa -> False) /\ ~ In SKill sa
+  /\ exists e, x = Some e /\ (t_ask <= e <= t_ask + grace + sweep_of s)%Z.
+Proof. exact teardown_t_clean. Qed.
+
+(* the shm phase under ANY join timeout poll(2) accepts: segments stay behind exactly when the server holds
+   some and is given less time than its sweep needs *)
+Theorem C05_shm_phase_left_iff : forall policy now segs sweep t, policy now = Some t -> (t <= max_timeout)%Z ->
+  fst (fst (shm_with policy now (SHolds segs sweep))) = true <-> ((0 < segs)%nat /\ (Z.max 0 t < Z.max 0 sweep)%Z).
+Proof. exact shm_with_left_iff. Qed.
+
+(* the whole timed teardown IS Executor.terminate of Net/Executor.v (its `Stuck` = leaves after the deadline,
+   which lies one linger per dead worker plus the grace period after the start), including that model's
+   claim that a live shm server's segments are gone afterwards *)
+Theorem C05_teardown_is_terminate : forall mono0 e tws s, terminating e = false -> wedged s = false ->
+  let '(ws', a, t_ask, (lft, sa, x)) := teardown_t mono0 tws s in
+  workers e = abs_workers_at (t_ask + grace) (fst (ask 0 tws)) -> is_alive (shm e) = abs_shm s ->
+  workers (fst (terminate e)) = abs_workers_at (t_ask + grace) ws'
+  /\ snd (terminate e) = shutdown_msgs (workers e) ++ kills a
+       ++ (if is_alive (shm e) then [ShmShutdown] else []) ++ (if is_alive (ds e) then [KillDs] else [])
+  /\ (sa = if is_alive (shm e) then [SJoin None] else [])
+  /\ lft = false /\ (is_alive (shm e) = true -> segs (fst (terminate e)) = []).
+Proof. exact teardown_is_terminate. Qed.
+
+(* non-vacuous, and the hypotheses matter: with ONE deadline for the whole teardown, taken before the workers
+   are asked, (1) five dead workers of six, or (2) one worker that does not leave, use the deadline up and the
+   server is killed 0 ms after it acknowledged -- segments stay; the code leaves none on the same inputs *)
+Example C05_teardown_whole_nonvacuous :
+  let dead5 := [(0, TLeaves 0); (1, TExited (-9)); (2, TExited (-9)); (3, TExited (-9)); (4, TExited (-9)); (5, TExited (-9))] in
+  let busy1 := [(0, TLeaves 0); (1, TNever)] in
+  teardown_t 1234500 dead5 (SHolds 3 2)
+  = ([(0, TExited 0); (1, TExited (-9)); (2, TExited (-9)); (3, TExited (-9)); (4, TExited (-9)); (5, TExited (-9))],
+     [TJoin 0 (Some 5000%Z); TJoinDead 1; TJoinDead 2; TJoinDead 3; TJoinDead 4; TJoinDead 5], 5000%Z,
+     (false, [SJoin None], Some 5002%Z))
+  /\ snd (teardown_one_deadline 1234500 dead5 (SHolds 3 2)) = (true, [SJoin (Some 0%Z); SKill], Some 5000%Z)
+  /\ snd (teardown_t 1234500 busy1 (SHolds 3 2)) = (false, [SJoin None], Some 5002%Z)
+  /\ snd (teardown_one_deadline 1234500 busy1 (SHolds 3 2)) = (true, [SJoin (Some 0%Z); SKill], Some 5000%Z)
+  /\ wedged (SHolds 3 2) = false.
+Proof. vm_compute. repeat split. Qed.
+
 (* over EVERY history of loop iterations and faults (any order, any number): the executor has
    terminated exactly when it has sent its one Exit/Failure report, and then no child is alive *)
 Theorem C05_history_invariant : forall xs e e' a, terminating e = false -> run_evs e xs = (e', a) ->
@@ -233,6 +283,9 @@ Print Assumptions C05_terminate_idempotent.
 Print Assumptions C05_teardown_within_grace.
 Print Assumptions C05_teardown_any_usable_policy.
 Print Assumptions C05_terminate_is_timed.
+Print Assumptions C05_teardown_leaves_no_segment.
+Print Assumptions C05_shm_phase_left_iff.
+Print Assumptions C05_teardown_is_terminate.
 Print Assumptions C05_history_invariant.
 Print Assumptions C05_no_segments_left_refuted.
 Print Assumptions C05_no_segments_left_partial.
